@@ -49,6 +49,11 @@ Leaves ==
      \* template introducer, a multi-byte letter
      StrLit("n\nl"), StrLit("q\"t"), StrLit("a\\b"), StrLit("${x}"), StrLit("%{y}")}
     \cup {NVar(x) : x \in ScopeNames}
+    \* compound leaves: objects whose ATTRIBUTE NAMES are computed from values, so that every
+    \* depth-1 production is also applied to an operand whose type depends on content
+    \cup {NFor("object", 1, "v", NVar("m"), NVar("v"), NVar("k"), NNone),
+          NFor("group", 1, "v", NVar("m"), NVar("v"), NVar("k"), NNone),
+          NObject(<<NParen(NVar("s")), NNum(2)>>)}
 
 PNum  == {NVar("n1"), NNum(4), NNum(0), NVar("sn"), NVar("s"), NVar("nul")}
 PBool == {NVar("b"), NBool(FALSE), NVar("nul"), NVar("s")}
